@@ -16,6 +16,11 @@ Emit == /\ AllStopped
 LNext == BuildInit \/ Pick \/ (\E t \in Threads : Step(t)) \/ Emit
 LSpec == LInit /\ [][LNext]_allv
 
+\* liveness (checked on small constants, weak fairness on the whole next-state relation, no
+\* state constraint): every scenario runs to its end - every call returns or its thread panics
+LSpecFair == LSpec /\ WF_allv(\E t \in Threads : Step(t)) /\ WF_allv(Emit) /\ WF_allv(Pick)
+EveryRunEnds == (phase = "run") ~> (phase = "end")
+
 \* every thread always finishes: in each non-terminal running state some step is enabled
 \* (steps are unconditional), i.e. the model itself has no deadlock
 Progress == (phase = "run" /\ ~AllStopped) => \E t \in Threads : status[t] = "run"
